@@ -33,6 +33,14 @@ Second audit pass (GAPS-C11.md, "Second pass"):
   order than their folds, estimators returning float32;
 * trained mode + calibration error: the fold models (deep copies made inside brew) register
   themselves when fitted, so fold membership is recovered also when brew raises.
+
+Third audit pass (GAPS-C11.md, "Third pass"): the step between `list(_predict(...))` and the return of
+`brew` (brew.py:253-291).  `eval_keep` calls brew a second time on the same pre-trained models, now with
+`override` / `feat_pass` / `best_feat` / `desc` set so that the largest `feat_pass` sits at, just below or
+just above the number of targets the calibrated scores of the first run accept: while the learned model is
+kept (every model forced, or max feat_pass <= that number; a tie keeps it) brew must return the calibrated
+vectors bit for bit, shape (n,); a calibration error must be raised whatever the models' feat_pass; the
+fallback side (C07's branch) is compared with the model op `brewkeep` only.
 """
 from __future__ import annotations
 
@@ -66,7 +74,10 @@ RULE = (
     "bool / +-1 / 0-1; second pass: scale 2^e and common offset of the scores per case / per fold model, 0/1 int "
     "and float target arrays, decision_function through __getattr__ / on the instance / withheld by a "
     "descriptor, TSV and multi-row-group Parquet files, permuted pre-trained model list, float32 estimator "
-    "output); distinct = distinct (rank "
+    "output; third pass: 70 % of the pre-trained brew cases are run a second time with override / feat_pass / "
+    "best_feat / desc of the fold models set so that max feat_pass = accepted targets of the first run + delta, "
+    "delta in {0, +-1, 2, -3, 10^6}, and first runs that raised the calibration error a second time with "
+    "overrulable models); distinct = distinct (rank "
     "pattern of scores, labels, direction, threshold) resp. (fold pattern, per-fold rank patterns, labels, "
     "threshold); non-trivial = some target accepted, at least one decoy, at least two distinct scores, or an "
     "error case with at least one target; thorough adds the exhaustive sweep over all score vectors over 3 "
@@ -731,11 +742,25 @@ def gen_brew_case(rng, small=False):
         scales.append([e, off])
     fmt = rng.choice(["parquet", "parquet", "parquet-rowgroups", "tsv"])
     morder = list(range(k))
-    if mode == "pretrained" and rng.random() < 0.5:
+    if mode == "pretrained" and rng.random() < 0.7:
         rng.shuffle(morder)
     # the `fold` attributes of the pre-trained models: brew only sorts by them (mostly 1..k as brew itself sets them)
     foldattr = list(range(1, k + 1)) if rng.random() < 0.6 else sorted(rng.sample(range(0, 25), k))
-    return dict(k=k, mode=mode, colls=colls, thr=thr,
+    # ---- third pass: the decision between `_predict` and the return of brew (brew.py:253-291) -------------
+    # the pre-trained models are given override / feat_pass / best_feat / desc such that the largest feat_pass
+    # sits at, just below or just above the number of targets the calibrated scores accept (known after a first
+    # run with override=True): `delta` is added to that number
+    keep = None
+    if mode == "pretrained" and rng.random() < 0.7:
+        allov = rng.random() < 0.15
+        keep = dict(delta=rng.choice([1, 2, 10 ** 6, 0] if allov else [0, 0, 0, 0, 0, 0, 1, 1, -1, -1, 2, -3, 10 ** 6]),
+                    who=rng.randrange(k),
+                    tie_with=rng.randrange(k) if rng.random() < 0.3 else None,
+                    override=[allov or rng.random() < 0.3 for _ in range(k)],
+                    frac=[rng.choice([0, 0.5, 0.9, 1.0]) for _ in range(k)],
+                    best_feat=[rng.choice(["score", "rowid"]) for _ in range(k)],
+                    desc=[rng.random() < 0.7 for _ in range(k)])
+    return dict(k=k, mode=mode, colls=colls, thr=thr, keep=keep,
                 chunk=chunk, workers=workers, seed=rng.randrange(10 ** 6),
                 both=both, ests=ests,
                 train_fdr=rng.choice([0.5, 1.0]),
@@ -760,9 +785,11 @@ def coll_frame(cl):
     })
 
 
-def run_brew(bc, tmp):
+def run_brew(bc, tmp, keep=None):
     """returns dict(status=..., scores=[...per collection], folds=[[fold per row] per collection],
-    raw=[[raw per row] per collection])"""
+    raw=[[raw per row] per collection]).  `keep` (third pass, pre-trained mode): per fold model the attributes the
+    final decision of brew (brew.py:253-291) reads -- dict(override=[..], feat_pass=[..], best_feat=[..], desc=[..]);
+    without it every model carries override=True (the learned scores are always returned)."""
     import mokapot
     from mokapot.model import Model
 
@@ -804,6 +831,11 @@ def run_brew(bc, tmp):
             m.is_trained = True
             m.features = ["score", "rowid"]
             m.fold = (bc.get("foldattr") or list(range(1, k + 1)))[f]
+            if keep is not None:
+                m.override = bool(keep["override"][f])
+                m.feat_pass = int(keep["feat_pass"][f])
+                m.best_feat = keep["best_feat"][f]
+                m.desc = bool(keep["desc"][f])
             models.append(m)
         # brew sorts the given models by their `fold` attribute: the order of the list must not matter
         model_arg = [models[j] for j in bc.get("morder", range(k))]
@@ -818,7 +850,8 @@ def run_brew(bc, tmp):
         arg = dss if len(dss) > 1 else dss[0]
         _, mods, scores, descs = mokapot.brew(arg, model_arg, test_fdr=float(bc["thr"]), folds=k,
                                               max_workers=bc["workers"], rng=bc["seed"])
-        res["scores"] = [[float(x) for x in np.asarray(s, dtype=float)] for s in scores]
+        res["shapes"] = [list(np.shape(s)) for s in scores]
+        res["scores"] = [[float(x) for x in np.asarray(s, dtype=float).ravel()] for s in scores]
         res["descs"] = list(descs)
     except RuntimeError as e:
         mods = models if bc["mode"] == "pretrained" else None
@@ -1129,7 +1162,7 @@ def eval_brew(chk, bcs, tmp):
         viol = None
         for ci, (model_raw, spec, folds, raw) in enumerate(per_coll):
             got = res["scores"][ci]
-            if res["descs"][ci] is not True or len(got) != len(raw):
+            if res["descs"][ci] is not True or len(got) != len(raw) or res.get("shapes", [[len(raw)]] * (ci + 1))[ci] != [len(raw)]:
                 viol = ("shape", ci, None)
                 break
             for f, (t, d, vals) in enumerate(spec):
@@ -1189,6 +1222,160 @@ def eval_brew(chk, bcs, tmp):
                             (odt == "float32" and same_list(g, [dec_xr(x) for x in m])) for g, m in zip(res["scores"], mc)):
                 chk.corr_break("predictcolls", dict(info, folds=res["folds"], model=colls_model[:1000],
                                                     impl=res["scores"]))
+    return results
+
+def keep_config(bc, ptotal):
+    """attributes of the fold models (in fold order) for the second run, given the number `ptotal` of targets the
+    calibrated scores of the first run accept"""
+    kp, k = bc["keep"], bc["k"]
+    top = max(0, ptotal + kp["delta"])
+    fp = [min(top, int(kp["frac"][f] * top)) for f in range(k)]
+    fp[kp["who"]] = top
+    if kp.get("tie_with") is not None:
+        fp[kp["tie_with"]] = top
+    return dict(override=list(kp["override"]), feat_pass=fp, best_feat=list(kp["best_feat"]), desc=list(kp["desc"]))
+
+
+def eval_keep(chk, bcs, results, tmp):
+    """Third pass: from `_predict` to what brew returns (brew.py:253-291).  For pre-trained runs that returned
+    calibrated scores with override=True (already held to the formula by `eval_brew`), brew is called again with
+    models that may be overruled.  Spec (C11): as long as the learned model is kept -- every model has override, or
+    the largest feat_pass is <= the number of targets the returned scores accept at test_fdr by the defining formula
+    (a tie keeps it) -- brew returns bit for bit the calibrated scores, shape (n,), descs True; and a calibration
+    error is raised whatever the models' feat_pass.  Otherwise (best feature strictly better: C07's branch) the
+    outcome is compared with the model op `brewkeep` only."""
+    probes, lines = [], []
+    for bi, (bc, res) in enumerate(zip(bcs, results)):
+        if not bc.get("keep") or bc["mode"] != "pretrained" or "folds" not in res:
+            continue
+        if res["status"] == "calib-error":
+            probes.append(dict(bi=bi, kind="error"))
+            continue
+        if res["status"] != "ok" or bc.get("odtype", "float64") != "float64":
+            continue
+        if any(f is None for fo in res["folds"] for f in fo) or res.get("dup"):
+            continue
+        if not all(math.isfinite(x) for sc in res["scores"] for x in sc):
+            chk.count("k.skipped", "non-finite calibrated scores (outside the quantifier)")
+            continue
+        if any(len(sc) != cl["n"] for sc, cl in zip(res["scores"], bc["colls"])):
+            continue
+        pos = len(lines)
+        for sc, cl in zip(res["scores"], bc["colls"]):
+            lines.append(req("qspec", True, [[Fraction(x), bool(l)] for x, l in zip(sc, cl["labels"])]))
+        probes.append(dict(bi=bi, kind="decision", pos=pos))
+    if not probes:
+        return
+    resp = common.driver_batch(lines) if lines else []
+    lines2 = []
+    for pr in probes:
+        bc, res = bcs[pr["bi"]], results[pr["bi"]]
+        k = bc["k"]
+        if pr["kind"] == "error":
+            keep = dict(override=[False] * k, feat_pass=[10 ** 6] * k, best_feat=["score"] * k, desc=[True] * k)
+            pr["keep"] = keep
+            pr["res2"] = run_brew(bc, tmp, keep=keep)
+            continue
+        ptotal, boundary = 0, False
+        for ci, cl in enumerate(bc["colls"]):
+            qv = dec(resp[pr["pos"] + ci])
+            qs = [a_rat(x) for x in (qv if isinstance(qv, list) else [qv])]
+            for q, l in zip(qs, cl["labels"]):
+                if l:
+                    if (q_rounded(q) > float(bc["thr"])) != (q > bc["thr"]):
+                        boundary = True
+                    ptotal += q <= bc["thr"]
+        pr["ptotal"], pr["boundary"] = int(ptotal), boundary
+        if boundary:
+            continue
+        keep = keep_config(bc, int(ptotal))
+        pr["keep"] = keep
+        pr["res2"] = run_brew(bc, tmp, keep=keep)
+        ms = [[bool(o), int(f)] for o, f in zip(keep["override"], keep["feat_pass"])]
+        flags = [has_df(e) for e in case_ests(bc)]
+        wire = [[[f, Fraction(r), bool(l)] for f, r, l in zip(res["folds"][ci], res["raw"][ci], cl["labels"])]
+                for ci, cl in enumerate(bc["colls"])]
+        pr["pos2"] = len(lines2)
+        lines2.append(req("brewkeep", min(bc["chunk"], 10 ** 6), flags, bc["thr"], ms, wire))
+        lines2.append(req("keepspec", bc["thr"], ms, [[Fraction(x) for x in sc] for sc in res["scores"]], wire))
+    resp2 = common.driver_batch(lines2) if lines2 else []
+    for pr in probes:
+        bc, res = bcs[pr["bi"]], results[pr["bi"]]
+        k = bc["k"]
+        if pr.get("boundary"):
+            chk.float_boundary += 1
+            chk.count("float-boundary")
+            continue
+        res2, keep = pr["res2"], pr["keep"]
+        info = dict(case=bjson(bc), keep=keep, status=res2["status"], error=res2.get("error"), level="brew-keep")
+        if pr["kind"] == "error":
+            chk.case(None, ("k-error", pr["bi"]), sample=info)
+            chk.count("k.class", "calibration error with overrulable models (feat_pass 10^6)")
+            if res2["status"] != "calib-error":
+                chk.spec_violation("brew:keep:error-masked", dict(
+                    info, impl=res2.get("scores"),
+                    clause="a fold accepts no target at test_fdr: brew must stop with the explicit error whatever "
+                           "the models' feat_pass / override"))
+            continue
+        ptotal = pr["ptotal"]
+        allov = all(keep["override"])
+        top = max(keep["feat_pass"])
+        kept_spec = allov or top <= ptotal                      # direct restatement of `KeptSpec`
+        model_raw = resp2[pr["pos2"]].strip()
+        spec_line = dec(resp2[pr["pos2"] + 1])
+        chk.count("k.class", "every model has override" if allov else
+                  "tie: feat_total == pred_total" if top == ptotal else
+                  "feat_total < pred_total" if top < ptotal else "feat_total > pred_total (fallback, C07)")
+        chk.count("k.models-holding-the-maximum", sum(1 for f in keep["feat_pass"] if f == top))
+        chk.case(None, ("k", pr["bi"], kept_spec, top - ptotal if abs(top - ptotal) < 5 else None), sample=dict(
+            info, ptotal=ptotal, impl=res2.get("scores"), model=model_raw[:300]))
+        if not (isinstance(spec_line, list) and len(spec_line) == 3 and (spec_line[0] == "T") == kept_spec
+                and int(spec_line[1]) == ptotal and int(spec_line[2]) == top):
+            chk.corr_break("keepspec", dict(info, ptotal=ptotal, top=top, kept=kept_spec, model=str(spec_line)[:200]))
+        if kept_spec:
+            ok = (res2["status"] == "ok" and res2.get("descs") == [True] * len(bc["colls"])
+                  and res2.get("shapes") == [[cl["n"]] for cl in bc["colls"]]
+                  and len(res2["scores"]) == len(res["scores"])
+                  and all(same_list(a, b) for a, b in zip(res2["scores"], res["scores"])))
+            if not ok:
+                sig = "brew:keep:calibrated-scores-discarded" + ("-on-tie" if (not allov and top == ptotal) else "")
+                chk.spec_violation(sig, dict(
+                    info, ptotal=ptotal, feat_total=0 if allov else top, impl=res2.get("scores"),
+                    shapes=res2.get("shapes"), descs=[bool(d) for d in res2.get("descs", [])],
+                    expected=res["scores"],
+                    clause="the learned model is kept (every model forced, or the best feature passed no more targets "
+                           "than the calibrated scores accept): brew must return the per-fold calibrated scores"))
+                continue
+        # ---- model ------------------------------------------------------------------------------------------
+        m = dec(model_raw) if not model_raw.startswith("reject") else model_raw
+        if isinstance(m, str):
+            chk.corr_break("brewkeep", dict(info, ptotal=ptotal, model=model_raw[:300], impl=res2.get("scores")))
+            continue
+        if m[0] == "kept":
+            if not kept_spec:
+                # exact rationals vs floats: two calibrated scores of different folds that differ exactly but round
+                # to the same double can move the pooled count; not seen with the generated magnitudes
+                chk.count("k.model-count-differs-from-float-count", True)
+                continue
+            mc = m[1] if m[1] and isinstance(m[1][0], list) else [m[1]]
+            if len(mc) != len(res2["scores"]) or not all(same_list(g, [dec_xr(x) for x in mm])
+                                                         for g, mm in zip(res2["scores"], mc)):
+                chk.corr_break("brewkeep", dict(info, ptotal=ptotal, model=model_raw[:600], impl=res2.get("scores")))
+        else:
+            if kept_spec:
+                chk.count("k.model-count-differs-from-float-count", True)
+                continue
+            idx = int(m[1])
+            feat, desc = keep["best_feat"][idx], keep["desc"][idx]
+            want = [[float(x) for x in (cl["feat"] if feat == "score" else np.arange(cl["n"], dtype=float) + cl["base"])]
+                    for cl in bc["colls"]]
+            if not (res2["status"] == "ok" and res2.get("descs") == [desc] * len(bc["colls"])
+                    and len(res2["scores"]) == len(want) and all(same_list(a, b) for a, b in zip(res2["scores"], want))):
+                chk.corr_break("brewkeep", dict(info, ptotal=ptotal, model=model_raw[:300], impl=res2.get("scores"),
+                                                descs=[bool(d) for d in res2.get("descs", [])], best=[idx, feat, desc]))
+            else:
+                for sh in res2.get("shapes", []):
+                    chk.count("k.fallback-score-shape", "(n, 1)" if len(sh) == 2 else "(n,)")
 
 
 def dec_colls(line, sizes):
@@ -1249,7 +1436,8 @@ def search(chk):
         rng = chk.rng
         eval_cases(chk, [gen_case(rng, 14) for _ in range(3000)], tmp)
         if not chk.spec_violations:
-            eval_brew(chk, [gen_brew_case(rng, small=True) for _ in range(300)], tmp)
+            bcs = [gen_brew_case(rng, small=True) for _ in range(300)]
+            eval_keep(chk, bcs, eval_brew(chk, bcs, tmp), tmp)
         if not chk.spec_violations:
             exhaustive(chk, 5, 3, tmp)
         minimise(chk, tmp)
@@ -1267,7 +1455,8 @@ def main(chk, args):
         fcorp, bcorp = corpus()
         quick = chk.tier == "quick"
         eval_cases(chk, fcorp + [gen_case(rng) for _ in range(1200 if quick else 12000)], tmp)
-        eval_brew(chk, bcorp + [gen_brew_case(rng) for _ in range(150 if quick else 1500)], tmp)
+        bcs = bcorp + [gen_brew_case(rng) for _ in range(150 if quick else 1500)]
+        eval_keep(chk, bcs, eval_brew(chk, bcs, tmp), tmp)
         exhaustive(chk, 4 if quick else 6, 3, tmp)
         minimise(chk, tmp)
     finally:
@@ -1298,6 +1487,12 @@ def main(chk, args):
         "dtype', GAPS-C01 G1-d)",
         "an estimator returning float32: the fold's scores may be the float32 or the float64 rounding of the exact "
         "quotient (the precision of the one division is not part of the property)",
+        "third pass: C11 is read under 'the learned model is kept' (every fold model has override, or the largest "
+        "feat_pass is <= the number of targets the returned vectors accept at test_fdr by the defining formula of the "
+        "q-value, evaluated on the floats the code returned); when the best feature passed strictly more, brew returns "
+        "that feature's raw column by design (property C07) and the outcome is compared with the model op brewkeep only "
+        "(which model's best_feat, its values, its direction); the probe uses pre-trained models with float64 output "
+        "whose attributes override / feat_pass / best_feat / desc are set by the harness",
         "trained mode with an exception: the fold models are deep copies made inside brew; each registers itself "
         "when fitted and is attributed to the fold whose training set (complement of the fold's test rows per "
         "_split) it scored after its last fit; if that does not identify one model per fold the case is tallied "
@@ -1317,7 +1512,8 @@ def replay(chk, path):
     tmp = Tmp()
     try:
         if "colls" in info["case"]:
-            eval_brew(chk, [bfrom_json(info["case"])], tmp)
+            bcs = [bfrom_json(info["case"])]
+            eval_keep(chk, bcs, eval_brew(chk, bcs, tmp), tmp)
         else:
             eval_cases(chk, [from_json(info["case"])], tmp)
     finally:
